@@ -1,10 +1,21 @@
 package main
 
+// Correspondence streams for C20: the number / hex / UUID formatters, hostport, lex/parse.
+// Every stream runs the real code (hooks in /repo/logger/verif_c20.go, /repo/proxy/verif_c20.go) and,
+// next to it, the standard-library rendering of the same value. impl is the plain output when it equals
+// the standard library's, otherwise {"out": …, "std": …} (which the driver reports as a spec failure).
+
 import (
+	"encoding/hex"
 	"encoding/json"
+	"fmt"
 	"math"
+	"strconv"
+	"strings"
 
 	"github.com/fabiolb/fabio/logger"
+	"github.com/fabiolb/fabio/proxy"
+	"github.com/fabiolb/fabio/uuid"
 	"verif/harness/hx"
 )
 
@@ -17,52 +28,244 @@ type c20HostportIn struct {
 	S string `json:"s"`
 }
 
+type c20IntIn struct {
+	N int64 `json:"n"`
+}
+
+type c20BlockIn struct {
+	Blk int `json:"blk"`
+}
+
+type c20UUIDIn struct {
+	U string `json:"u"` // 24 bytes, hex
+}
+
+type c20ParseIn struct {
+	F string `json:"f"`
+}
+
+func outOrDiff(out, std string) interface{} {
+	if out == std {
+		return out
+	}
+	return map[string]string{"out": out, "std": std}
+}
+
+// stdPadInt is the standard-library rendering atoi stands in for: sign, then |i| in decimal, zero-padded
+// to pad digits (strconv for the digits; fmt's %0*d counts the sign into the width, atoi does not).
+func stdPadInt(i int64, pad int) string {
+	u := uint64(i)
+	sign := ""
+	if i < 0 {
+		u = -u
+		sign = "-"
+	}
+	d := strconv.FormatUint(u, 10)
+	if len(d) < pad {
+		d = strings.Repeat("0", pad-len(d)) + d
+	}
+	return sign + d
+}
+
+func genInt64(r *hx.Rand) int64 {
+	switch r.Intn(6) {
+	case 0:
+		return int64(r.Intn(2000)) - 1000
+	case 1: // powers of ten and neighbours
+		p := int64(1)
+		for k := r.Intn(19); k > 0; k-- {
+			p *= 10
+		}
+		v := p + int64(r.Intn(3)) - 1
+		if r.Chance(1, 2) {
+			v = -v
+		}
+		return v
+	case 2:
+		return int64(r.U64())
+	case 3:
+		return int64(r.U64() >> uint(r.Intn(64)))
+	case 4: // powers of two and neighbours
+		v := int64(1)<<uint(r.Intn(63)) + int64(r.Intn(3)) - 1
+		if r.Chance(1, 2) {
+			v = -v
+		}
+		return v
+	default:
+		return -int64(r.U64() >> uint(1+r.Intn(63)))
+	}
+}
+
+const fnvOff = 14695981039346656037
+const fnvPrime = 1099511628211
+
 func init() {
 	hx.Register(&hx.Stream{
 		Name: "c20.atoi",
 		Corpus: []interface{}{
 			c20AtoiIn{0, 0}, c20AtoiIn{0, 3}, c20AtoiIn{-1, 0}, c20AtoiIn{-1, 4}, c20AtoiIn{math.MaxInt64, 0},
-			c20AtoiIn{math.MinInt64 + 1, 0}, c20AtoiIn{math.MinInt64, 0}, c20AtoiIn{999, 9}, c20AtoiIn{1000, 3},
+			c20AtoiIn{math.MinInt64 + 1, 0}, c20AtoiIn{math.MinInt64, 0}, c20AtoiIn{math.MinInt64, 5}, c20AtoiIn{999, 9}, c20AtoiIn{1000, 3},
+			c20AtoiIn{7, 127}, c20AtoiIn{-7, 127}, c20AtoiIn{7, 128}, c20AtoiIn{-7, 128}, c20AtoiIn{7, 129}, c20AtoiIn{math.MaxInt64, 127},
 		},
 		Gen: func(r *hx.Rand, i int) interface{} {
-			var v int64
-			switch r.Intn(5) {
-			case 0:
-				v = int64(r.Intn(2000)) - 1000
-			case 1: // powers of ten and neighbours
-				p := int64(1)
-				for k := r.Intn(19); k > 0; k-- {
-					p *= 10
-				}
-				v = p + int64(r.Intn(3)) - 1
-				if r.Chance(1, 2) {
-					v = -v
-				}
-			case 2:
-				v = int64(r.U64())
-			case 3:
-				v = int64(r.U64() >> uint(r.Intn(64)))
-			default:
-				v = -int64(r.U64() >> uint(1+r.Intn(63)))
+			pad := r.Pick([]string{"0", "0", "2", "3", "4", "6", "9"})
+			p, _ := strconv.Atoi(pad)
+			if r.Chance(1, 10) {
+				p = r.Intn(25)
 			}
-			return c20AtoiIn{v, r.Intn(12)}
+			if r.Chance(1, 200) {
+				p = 120 + r.Intn(15) // around the size of the scratch array
+			}
+			return c20AtoiIn{genInt64(r), p}
 		},
 		Run: func(raw json.RawMessage) (interface{}, error) {
 			var in c20AtoiIn
 			if err := json.Unmarshal(raw, &in); err != nil {
 				return nil, err
 			}
-			return logger.VerifAtoi(in.I, in.Pad), nil
+			if in.Pad < 0 || in.Pad > 4096 {
+				return nil, fmt.Errorf("pad out of the modelled range")
+			}
+			out := logger.VerifAtoi(in.I, in.Pad)
+			if in.I == math.MinInt64 {
+				return out, nil // no standard-library counterpart claimed (see design/C20.md)
+			}
+			return outOrDiff(out, stdPadInt(in.I, in.Pad)), nil
 		},
 	})
-	hosts := []string{"", "a", "backend", "1.2.3.4", "[::1]", "::1", "host.example", "h:1:2", ":"}
+
 	hx.Register(&hx.Stream{
-		Name:   "c20.hostport",
-		Corpus: []interface{}{c20HostportIn{""}, c20HostportIn{"1.2.3.4:80"}, c20HostportIn{"[::1]:80"}, c20HostportIn{":80"}, c20HostportIn{"h:"}},
+		Name: "c20.i32toa",
+		Corpus: []interface{}{
+			c20IntIn{0}, c20IntIn{-1}, c20IntIn{1}, c20IntIn{9}, c20IntIn{10}, c20IntIn{-10}, c20IntIn{math.MaxInt32}, c20IntIn{math.MinInt32},
+			c20IntIn{math.MinInt32 + 1}, c20IntIn{999999999}, c20IntIn{1000000000}, c20IntIn{-1000000000},
+		},
+		Gen: func(r *hx.Rand, i int) interface{} {
+			return c20IntIn{int64(int32(genInt64(r)))}
+		},
+		Run: func(raw json.RawMessage) (interface{}, error) {
+			var in c20IntIn
+			if err := json.Unmarshal(raw, &in); err != nil {
+				return nil, err
+			}
+			if in.N < math.MinInt32 || in.N > math.MaxInt32 {
+				return nil, fmt.Errorf("not an int32")
+			}
+			return outOrDiff(proxy.VerifI32toa(int32(in.N)), strconv.Itoa(int(in.N))), nil
+		},
+	})
+
+	// Exhaustive sweep of int32 in 65536 blocks of 65536 values: the i-th generated case is block
+	// (i*40503) mod 65536 (an odd multiplier: a permutation), so 65536 cases cover every int32 once.
+	// Per block: number of values on which i32toa differs from strconv.Itoa, and an FNV-1a checksum of all
+	// outputs (each followed by '\n') that the Lean side recomputes from the model and from Nat.repr.
+	hx.Register(&hx.Stream{
+		Name:   "c20.i32block",
+		Corpus: []interface{}{c20BlockIn{0}, c20BlockIn{32767}, c20BlockIn{32768}, c20BlockIn{65535}, c20BlockIn{47683}, c20BlockIn{17852}},
+		Gen: func(r *hx.Rand, i int) interface{} {
+			return c20BlockIn{int((uint64(i) * 40503) % 65536)}
+		},
+		Run: func(raw json.RawMessage) (interface{}, error) {
+			var in c20BlockIn
+			if err := json.Unmarshal(raw, &in); err != nil {
+				return nil, err
+			}
+			if in.Blk < 0 || in.Blk > 65535 {
+				return nil, fmt.Errorf("no such block")
+			}
+			lo := int64(math.MinInt32) + int64(in.Blk)*65536
+			var sum uint64 = fnvOff
+			bad := 0
+			first := ""
+			for v := lo; v < lo+65536; v++ {
+				s := proxy.VerifI32toa(int32(v))
+				if s != strconv.FormatInt(v, 10) {
+					bad++
+					if first == "" {
+						first = strconv.FormatInt(v, 10) + " -> " + s
+					}
+				}
+				for k := 0; k < len(s); k++ {
+					sum = (sum ^ uint64(s[k])) * fnvPrime
+				}
+				sum = (sum ^ '\n') * fnvPrime
+			}
+			return map[string]interface{}{"bad": bad, "first_bad": first, "sum": strconv.FormatUint(sum, 16)}, nil
+		},
+	})
+
+	// all 65536 values: the i-th case is the value i mod 65536
+	hx.Register(&hx.Stream{
+		Name:   "c20.uint16",
+		Corpus: []interface{}{c20IntIn{0}, c20IntIn{0xffff}, c20IntIn{0x0301}, c20IntIn{0x00f0}, c20IntIn{0x0f00}, c20IntIn{0xf000}, c20IntIn{0xabcd}},
+		Gen: func(r *hx.Rand, i int) interface{} {
+			return c20IntIn{int64(i % 65536)}
+		},
+		Run: func(raw json.RawMessage) (interface{}, error) {
+			var in c20IntIn
+			if err := json.Unmarshal(raw, &in); err != nil {
+				return nil, err
+			}
+			if in.N < 0 || in.N > 65535 {
+				return nil, fmt.Errorf("not a uint16")
+			}
+			return outOrDiff(proxy.VerifUint16Base16(uint16(in.N)), fmt.Sprintf("0x%04x", in.N)), nil
+		},
+	})
+
+	hx.Register(&hx.Stream{
+		Name: "c20.uuid",
+		Corpus: []interface{}{
+			c20UUIDIn{strings.Repeat("00", 24)}, c20UUIDIn{strings.Repeat("ff", 24)},
+			c20UUIDIn{"000102030405060708090a0b0c0d0e0f1011121314151617"},
+			c20UUIDIn{"0f1e2d3c4b5a69788796a5b4c3d2e1f0ffffffffffffffff"},
+			c20UUIDIn{"00000000000000000000000000000000ffffffffffffffff"},
+		},
+		Gen: func(r *hx.Rand, i int) interface{} {
+			b := r.Bytes(24)
+			switch r.Intn(4) {
+			case 0: // few distinct nibbles so that a swapped position table shows
+				off := r.Intn(256)
+				for k := range b {
+					b[k] = byte(k*17 + off + 16*r.Intn(2))
+				}
+			case 1:
+				for k := range b {
+					if r.Chance(1, 2) {
+						b[k] = []byte{0, 0xff, 0x0f, 0xf0, 0x9a, 0xa9}[r.Intn(6)]
+					}
+				}
+			}
+			return c20UUIDIn{hex.EncodeToString(b)}
+		},
+		Run: func(raw json.RawMessage) (interface{}, error) {
+			var in c20UUIDIn
+			if err := json.Unmarshal(raw, &in); err != nil {
+				return nil, err
+			}
+			b, err := hex.DecodeString(in.U)
+			if err != nil || len(b) != 24 {
+				return nil, fmt.Errorf("need 24 hex bytes")
+			}
+			var u [24]byte
+			copy(u[:], b)
+			std := fmt.Sprintf("%x-%x-%x-%x-%x", b[0:4], b[4:6], b[6:8], b[8:10], b[10:16])
+			return outOrDiff(uuid.ToString(u), std), nil
+		},
+	})
+
+	hosts := []string{"", "a", "backend", "1.2.3.4", "[::1]", "::1", "host.example", "h:1:2", ":", "hôte", "日本", " ", "[fe80::1%eth0]", "a.b.c.d.e", "-"}
+	hx.Register(&hx.Stream{
+		Name: "c20.hostport",
+		Corpus: []interface{}{c20HostportIn{""}, c20HostportIn{"1.2.3.4:80"}, c20HostportIn{"[::1]:80"}, c20HostportIn{":80"}, c20HostportIn{"h:"},
+			c20HostportIn{"backend"}, c20HostportIn{":"}, c20HostportIn{"::"}, c20HostportIn{"é:é"}},
 		Gen: func(r *hx.Rand, i int) interface{} {
 			s := r.Pick(hosts)
-			if r.Chance(4, 5) {
-				s += ":" + r.Pick([]string{"80", "", "65535", "x", "8080"})
+			if r.Chance(3, 4) {
+				s += ":" + r.Pick([]string{"80", "", "65535", "x", "8080", "http", "ü", "0"})
+			}
+			if r.Chance(1, 10) {
+				s = randText(r, 12)
 			}
 			return c20HostportIn{s}
 		},
@@ -75,4 +278,123 @@ func init() {
 			return []string{h, p}, nil
 		},
 	})
+
+	hx.Register(&hx.Stream{
+		Name: "c20.parse",
+		Corpus: []interface{}{
+			c20ParseIn{""}, c20ParseIn{logger.CommonFormat}, c20ParseIn{logger.CombinedFormat}, c20ParseIn{"$"}, c20ParseIn{"$$"}, c20ParseIn{"$$request"},
+			c20ParseIn{"$header."}, c20ParseIn{"$header"}, c20ParseIn{"$header.X"}, c20ParseIn{"$header. x"}, c20ParseIn{"$header.."}, c20ParseIn{"$header.X.Y"},
+			c20ParseIn{"$headers.X"}, c20ParseIn{"$request.x"}, c20ParseIn{"$request$request"}, c20ParseIn{"$requestx"}, c20ParseIn{"a$"}, c20ParseIn{"$ $"},
+			c20ParseIn{"$é"}, c20ParseIn{"é$request_uri日本"}, c20ParseIn{"$header.X-Forwarded_For1 "}, c20ParseIn{"$upstream_service"}, c20ParseIn{"$Request"},
+			c20ParseIn{"$header.é"}, c20ParseIn{"$header.X$header.Y"}, c20ParseIn{"x$header."},
+		},
+		Gen: func(r *hx.Rand, i int) interface{} { return c20ParseIn{genFormatString(r)} },
+		Run: func(raw json.RawMessage) (interface{}, error) {
+			var in c20ParseIn
+			if err := json.Unmarshal(raw, &in); err != nil {
+				return nil, err
+			}
+			return runParse(in.F), nil
+		},
+	})
+}
+
+// runParse drives the real lex the way parse does and then the real parse. If lex ever reports a length
+// outside 1..len (the parse loop would then spin or panic) the case stops there and says so; parse itself
+// is only called when the loop is known to terminate.
+func runParse(format string) interface{} {
+	s := []rune(format)
+	items := [][]interface{}{}
+	for guard := 0; len(s) > 0; guard++ {
+		typ, n := logger.VerifLex(s)
+		if n < 1 || n > len(s) || guard > 1<<20 {
+			return map[string]interface{}{"items": items, "stuck": []int{typ, n}}
+		}
+		items = append(items, []interface{}{typ, string(s[:n])})
+		s = s[n:]
+	}
+	n, err := logger.VerifParse(format)
+	e := ""
+	if err != nil {
+		e = err.Error()
+	}
+	return map[string]interface{}{"items": items, "n": n, "err": e}
+}
+
+var docFields = []string{
+	"$remote_addr", "$remote_host", "$remote_port", "$request", "$request_args", "$request_host", "$request_method",
+	"$request_scheme", "$request_uri", "$request_url", "$request_proto", "$response_body_size", "$response_status",
+	"$response_time_ms", "$response_time_us", "$response_time_ns", "$time_rfc3339", "$time_rfc3339_ms", "$time_rfc3339_us",
+	"$time_rfc3339_ns", "$time_unix_ms", "$time_unix_us", "$time_unix_ns", "$time_common", "$upstream_addr", "$upstream_host",
+	"$upstream_port", "$upstream_request_scheme", "$upstream_request_uri", "$upstream_request_url", "$upstream_service",
+}
+
+var headerNames = []string{"Referer", "User-Agent", "X-Forwarded-For", "x-request-id", "X_Under", "HOST", "a", "A-b-C", "x--y", "-", "9", "Content-Type"}
+
+var textBits = []string{" ", " - ", "[", "]", "\"", " \"", "\" ", "|", ":", "/", "é", "日本", " x ", "?", "=", ",", "\t", "%", "{}", "\\", "'", "<>", "🙂"}
+
+func randText(r *hx.Rand, max int) string {
+	n := r.Intn(max + 1)
+	var b strings.Builder
+	for k := 0; k < n; k++ {
+		switch r.Intn(12) {
+		case 0:
+			b.WriteByte('$')
+		case 1:
+			b.WriteByte('.')
+		case 2:
+			b.WriteByte(':')
+		case 3:
+			b.WriteString(r.Pick([]string{"é", "ß", "日", "🙂", " ", "İ"}))
+		case 4:
+			b.WriteByte("-_ "[r.Intn(3)])
+		case 5:
+			b.WriteByte(byte('0' + r.Intn(10)))
+		case 6:
+			b.WriteByte(byte('A' + r.Intn(26)))
+		default:
+			b.WriteByte(byte('a' + r.Intn(26)))
+		}
+	}
+	return b.String()
+}
+
+// genFormatString: mostly formats over the documented fields with separators, plus stray '$', "$header."
+// corner cases, unknown and misspelt fields, unicode, and fully random strings over a small alphabet.
+func genFormatString(r *hx.Rand) string {
+	if r.Chance(1, 8) {
+		return randText(r, 16)
+	}
+	var b strings.Builder
+	n := 1 + r.Intn(7)
+	for k := 0; k < n; k++ {
+		switch r.Intn(14) {
+		case 0, 1, 2, 3, 4:
+			b.WriteString(r.Pick(docFields))
+		case 5, 6:
+			b.WriteString("$header." + r.Pick(headerNames))
+		case 7, 8, 9:
+			b.WriteString(r.Pick(textBits))
+		case 10: // unknown or misspelt field
+			f := r.Pick(docFields)
+			switch r.Intn(4) {
+			case 0:
+				f = f[:1+r.Intn(len(f)-1)]
+			case 1:
+				f = strings.ToUpper(f)
+			case 2:
+				f += r.Pick([]string{"x", "_", "-", "0", "s"})
+			default:
+				f = "$" + randText(r, 6)
+			}
+			b.WriteString(f)
+		case 11:
+			b.WriteString(r.Pick([]string{"$", "$$", "$ ", "$.", "$header", "$header.", "$header..", "$header.$", "$headers.x", "$header.é", ".", "$-", "$_"}))
+		case 12:
+			b.WriteString(randText(r, 5))
+		default:
+			b.WriteString(r.Pick([]string{".", ".x", "x", "_", "-", "0"})) // glued to whatever came before
+		}
+	}
+	return b.String()
 }
